@@ -125,6 +125,10 @@ def make_iterspec(I, st, it):
         cell = st.heap[it.oid]
         if cell.get("items") is not None:
             return [(st, IterSpec(concrete=list(cell["items"])))]
+        parts = [p for p in cell["parts"] if not isinstance(p, Nil)]
+        if len(parts) == 1 and isinstance(parts[0], For) and isinstance(parts[0].body, One) and cell["kind"] == "list":
+            f = parts[0]
+            return [(st, IterSpec(n=f.n, elem=(lambda i, f=f: subst(f.body.val, [(f.ivar, i)])), start=None if z3.is_int_value(f.lo) and f.lo.as_long() == 0 else f.lo))]
         return [(st, IterSpec(seq=cat(*cell["parts"]), unordered=cell["kind"] == "set"))]
     if isinstance(it, Seq):
         return [(st, IterSpec(seq=it))]
@@ -796,6 +800,8 @@ def prim_len(I, st, x):
         return [(st, SInt(len(x.d)))]
     if isinstance(x, SliceVal):
         return [(st, SInt(llen(x.base.t) - x.lo))]
+    if isinstance(x, ListObj) and st.heap[x.oid]["kind"] == "set":
+        return set_len(I, st, x)
     if isinstance(x, ListObj):
         return [(st, SInt(seq_len(list_seq(st, x), st.heap[x.oid]["kind"])))]
     hook = ctx.config.get("len_hook")
@@ -804,6 +810,39 @@ def prim_len(I, st, x):
         if r is not None:
             return r
     raise OutOfSubset("len(%r)" % (x,))
+
+
+def elem_term(body):
+    """the single element produced by a loop body, as one V term (If-chain over the alternatives)"""
+    if isinstance(body, One) and isinstance(body.val, SV):
+        return body.val.t
+    if isinstance(body, Alt):
+        cases = [(c, elem_term(b)) for c, b in body.cases]
+        t = cases[-1][1]
+        for c, e in reversed(cases[:-1]):
+            t = z3.If(c, e, t)
+        return t
+    raise OutOfSubset("set element of shape %r" % (type(body).__name__,))
+
+
+def set_len(I, st, lo):
+    """len(set(f(x) for x in xs)) -- ASSUMED contract of the built-in set (DESIGN.md section 5): with all
+    elements hashable, the size is at most the number of elements and equals it iff no two elements
+    are == -equal."""
+    from .interp import add_lemma
+    parts = [p for p in st.heap[lo.oid]["parts"] if not isinstance(p, Nil)]
+    if len(parts) != 1 or not isinstance(parts[0], For):
+        raise OutOfSubset("len of a set that is not a comprehension over one container")
+    f = parts[0]
+    e_i = elem_term(f.body)
+    j = smt.fresh("sj", smt.I)
+    e_j = z3.substitute(e_i, (f.ivar, j))
+    m = smt.fresh_fn("setlen", st.loopvars, smt.I)
+    distinct = z3.ForAll([f.ivar, j], z3.Implies(z3.And(f.lo <= f.ivar, f.ivar < j, j < f.n), z3.Not(smt.pyeq(e_i, e_j))))
+    s = st.fork()
+    add_lemma(s, z3.And(m >= 0, m <= f.n - f.lo, (m == f.n - f.lo) == distinct))
+    I.ctx.notes.append("assumed: len(set(...)) contract")
+    return [(s, SInt(m))]
 
 
 seq_count = z3.Function("seq_count", smt.I, smt.I)    # opaque counts, keyed by a unique id
@@ -1128,6 +1167,18 @@ def sv_method(I, st, obj, name, args, kwargs):
 
 def list_method(I, st, lo, name, args, kwargs):
     cell = st.heap[lo.oid]
+    if name in ("append", "add") and cell["kind"] == "set":
+        e = args[0]
+        if isinstance(e, SV):
+            res = []
+            for s, ok in branch(I.ctx, st, [(z3.Not(smt.is_kind(e.t, K_LIST, K_DICT)), True), (smt.is_kind(e.t, K_LIST, K_DICT), False)]):
+                if not ok:
+                    res.append((s, raised("TypeError", "unhashable")))
+                    continue
+                s.heap[lo.oid] = dict(cell, parts=cell["parts"] + (One(e),), items=None)
+                res.append((s, lift(None)))
+            return res
+        raise OutOfSubset("set element %r" % (e,))
     if name in ("append", "add"):
         s = st.fork()
         items = cell.get("items")
